@@ -34,6 +34,14 @@ class Ctx:
         self.samples = []
         self.outcomes = set()
         self.payload = None
+        self.dig = 0
+
+    def digest(self, obj):
+        """Order-independent, hash-seed-independent digest of results (XOR of 64-bit checksums of repr)."""
+        import zlib
+
+        b = repr(obj).encode()
+        self.dig ^= (zlib.crc32(b) << 32) | zlib.adler32(b)
 
     def count(self, key, n=1):
         self.counters[key] += n
@@ -101,6 +109,7 @@ def run_one(modname, idx, unit, timeout):
         "nviol": ctx.nviol,
         "samples": ctx.samples,
         "payload": ctx.payload,
+        "dig": ctx.dig,
         "error": err,
     }
 
@@ -121,6 +130,7 @@ class Merged:
         self.errors = []
         self.units = 0
         self.payloads = []
+        self.dig = 0
 
 
 def run_units(modname, units, timeout=600, procs=None, seed=0):
@@ -153,6 +163,7 @@ def run_units(modname, units, timeout=600, procs=None, seed=0):
             m.violations.append(v)
         m.nviol += r["nviol"]
         m.payloads.append(r["payload"])
+        m.dig ^= r.get("dig", 0)
         if len(m.samples) < 6:
             m.samples.extend(r["samples"][: 6 - len(m.samples)])
         if r["error"]:
